@@ -74,6 +74,17 @@ def c16_lengths(task):
                 if got.data != b"".join(smp[a:b]) or len(got) != len(smp[a:b]):
                     msg = "region[%r:%r] of %d samples at %d Hz holds %d samples, list slicing gives %d" % (a, b, n, sr, len(got), len(smp[a:b]))
                     break
+            # instants far outside the region through the time views: everything / nothing, whatever n / rate is in binary
+            if msg is None:
+                for view, big in (("sec", 1e6), ("ms", 10 ** 9)):
+                    v = getattr(r, view)
+                    for a, b, want in ((-big, None, n), (big, None, 0), (None, big, n), (None, -big, 0), (-big, big, n)):
+                        got = v[a:b]
+                        if len(got) != want or got.data != (data if want else b""):
+                            msg = "region.%s[%r:%r] of %d samples at %d Hz holds %d samples, expected %d" % (view, a, b, n, sr, len(got), want)
+                            break
+                    if msg:
+                        break
         if n:
             cov["distinct_nontrivial"] += 1
         if msg and len(viol) < 5:
@@ -790,19 +801,48 @@ def c17_misc(rep):
             pass
         except Exception as exc:
             rep.violation("immutable " + attr, "assignment to %s raised %r" % (attr, exc), {"kind": "c17imm", "attr": attr})
-    # non-whole data rejected at construction
+    # non-whole data rejected at construction: 0, 1, 2 whole samples plus 1..sw*ch-1 bytes, with and without a start time
     for sw, ch in FORMATS5:
-        for extra in range(1, sw * ch):
-            rep.add("evaluations")
-            try:
-                AR(content(2, sw, ch) + b"\1" * extra, 8, sw, ch)
-                rep.violation("nonwhole sw=%d ch=%d extra=%d" % (sw, ch, extra), "non-whole data accepted",
-                              {"kind": "c17whole", "sw": sw, "ch": ch, "extra": extra})
-            except APE:
-                pass
-            except Exception as exc:
-                rep.violation("nonwhole sw=%d ch=%d extra=%d" % (sw, ch, extra), "raised %r" % (exc,),
-                              {"kind": "c17whole", "sw": sw, "ch": ch, "extra": extra})
+        for whole in (0, 1, 2):
+            for extra in range(1, sw * ch):
+                for start in ("omitted", None, 0, 0.0, 1.5):
+                    rep.add("evaluations")
+                    args = () if start == "omitted" else (start,)
+                    key = "nonwhole sw=%d ch=%d whole=%d extra=%d start=%r" % (sw, ch, whole, extra, start)
+                    try:
+                        AR(content(whole, sw, ch) + b"\1" * extra, 8, sw, ch, *args)
+                        rep.violation(key, "data of %d bytes (%d-byte samples) accepted at construction (start %s)" % (
+                            whole * sw * ch + extra, sw * ch, start), {"kind": "c17whole", "sw": sw, "ch": ch, "extra": extra})
+                    except APE:
+                        pass
+                    except Exception as exc:
+                        rep.violation(key, "raised %r" % (exc,), {"kind": "c17whole", "sw": sw, "ch": ch, "extra": extra})
+    # use, fail, use again: a combination that was refused once is refused every time, and a refusal leaves the operands usable
+    a = AR(content(3, 2, 1), 8, 2, 1)
+    good = AR(content(2, 2, 1, salt=1), 8, 2, 1)
+    for bad in (AR(content(3, 2, 1), 16, 2, 1), AR(content(4, 1, 1), 8, 1, 1), AR(content(2, 2, 2), 8, 2, 2)):
+        ops = [("a + bad", lambda: a + bad), ("bad + a", lambda: bad + a), ("sum([a, bad])", lambda: sum([a, bad])),
+               ("a.join([bad, bad])", lambda: a.join([bad, bad])), ("a.join([good, bad])", lambda: a.join([good, bad])),
+               ("sum([a, good, bad])", lambda: sum([a, good, bad]))]
+        for name, fn in ops:
+            for attempt in (1, 2, 3):
+                rep.add("evaluations")
+                try:
+                    got = fn()
+                    msg = "attempt %d of %s produced %d bytes instead of the audio-parameter error" % (attempt, name, len(got.data))
+                except APE:
+                    msg = None
+                except Exception as exc:
+                    msg = "attempt %d of %s raised %r" % (attempt, name, exc)
+                if msg is None and attempt == 2:
+                    try:
+                        ok = (a + good).data == a.data + good.data and good.join([a, a]).data == a.data + good.data + a.data
+                        msg = None if ok else "after the refusal, compatible operands give wrong bytes"
+                    except Exception as exc:
+                        msg = "after the refusal, compatible operands raise %r" % (exc,)
+                if msg:
+                    rep.violation("retry %s vs (%d,%d,%d) #%d" % (name, bad.sr, bad.sw, bad.ch, attempt), msg, {"kind": "c17retry"})
+                    break
     # make_silence(d) = round(d*rate) zero samples, on / between sample instants
     for sr, sw, ch in itertools.product((8, 10, 16000), (1, 2, 4), (1, 2, 3)):
         durs = [0, 1 / sr, 2 / sr, 2.5 / sr, 3.5 / sr, 0.3, 0.25, 1.0, 0.0004, 7 / sr + 0.4 / sr, 7 / sr + 0.6 / sr]
@@ -1204,6 +1244,52 @@ def c18_more(rep):
                     rep.violation("save-again %s lazy=%s source made %s" % (ext, lazy, maker),
                                   "%s file saved three times, %s source object made %s the saves, opened afterwards: %s" % (
                                       ext, "lazy" if lazy else "in-memory", maker, msg), {"kind": "c18more"})
+    # names as users type them: bare relative names (written to the current directory), upper / mixed case extensions;
+    # and wav files that carry other chunks around the audio
+    from .chk_sources import write_wav_chunky
+
+    cwd = os.getcwd()
+    os.chdir(d)
+    try:
+        for name in ("clip.wav", "clip.raw", Path("clip2.wav"), "REC001.WAV", "Take2.Wav", "TAKE.RAW", "clip_{start}-{end}.wav"):
+            rep.add("evaluations")
+            reg = AR(content(6, 2, 1), 10, 2, 1, 0.5)
+            try:
+                got_name = reg.save(name)
+                kw = dict(sr=10, sw=2, ch=1) if str(name).lower().endswith("raw") else {}
+                msgs = []
+                for lazy in (False, True):
+                    back = auditok.load(got_name, large_file=lazy, **kw)
+                    if back.data != reg.data or (back.sr, back.sw, back.ch) != (10, 2, 1):
+                        msgs.append("%s load holds %d bytes at %r" % ("lazy" if lazy else "in-memory", len(back.data), (back.sr, back.sw, back.ch)))
+                if not os.path.exists(os.path.join(d, str(name).format(start=reg.start, end=reg.end))):
+                    msgs.append("no such file in the current directory")
+                msg = "; ".join(msgs) or None
+            except Exception as exc:
+                msg = "raised %r" % (exc,)
+            if msg:
+                rep.violation("save/load name %s" % (name,), "region.save(%r) in the current directory, then load(): %s" % (name, msg), {"kind": "c18more"})
+    finally:
+        os.chdir(cwd)
+    for (sw_, ch_) in ((1, 1), (2, 2), (1, 3)):
+        dat = content(7, sw_, ch_)
+        smp = samples_of(dat, sw_, ch_)
+        path = os.path.join(d, "edited_x.wav")
+        write_wav_chunky(path, dat, 10, sw_, ch_)
+        for lazy in (False, True):
+            for skip, mr in ((0, None), (0.2, None), (0.1, 0.3), (0, 0.7), (0.6, 0.5)):
+                rep.add("evaluations")
+                a = round(skip * 10)
+                exp = b"".join(smp[a:] if mr is None else smp[a : a + round(mr * 10)])
+                try:
+                    back = auditok.load(path, skip=skip, max_read=mr, large_file=lazy)
+                    msg = None if (back.data == exp and (back.sr, back.sw, back.ch) == (10, sw_, ch_)) else "holds %s, expected %s" % (back.data.hex(), exp.hex())
+                except Exception as exc:
+                    msg = "raised %r" % (exc,)
+                if msg:
+                    rep.violation("load chunky wav sw=%d ch=%d lazy=%s skip=%r mr=%r" % (sw_, ch_, lazy, skip, mr),
+                                  "wav file with chunks before and after the audio, load(skip=%r, max_read=%r, large_file=%s): %s" % (skip, mr, lazy, msg),
+                                  {"kind": "c18more"})
     # encoder keyword arguments given to save() describe no audio: the file carries the region's own parameters
     for extra in (dict(sampling_rate=30, sample_width=1, channels=2), dict(sr=30, sw=1, ch=2), dict(bitrate="64k")):
         rep.add("evaluations")
